@@ -472,7 +472,7 @@ def run():
 
         # 3. the real servers
         ov = vf.make_overlay(sd, [])
-        ego = vf.build_ego(sd, ov)
+        ego = vf.go_build(ov, ".", os.path.join(sd, "ego"), timeout=3600)     # (vf.build_ego allows 900 s: too little for a cold cache on a saturated machine)
         fx = Fixture(sd, ego, gens)
         try:
             fx.start()
